@@ -263,6 +263,36 @@ pub fn oracle_c02(scn: &E2Scn, d: &D2, stats: &mut Stats) -> Vec<Violation> {
         }
         t
     };
+    // the queue hands out pending events by priority: no event is received (filtered) while an event of
+    // higher priority, accepted earlier, is still waiting to be received
+    let mut fcalls: Vec<(u32, u32, u8)> = Vec::new(); // (filter seq, id, prio)
+    for (id, calls) in &d.filter {
+        if let Some(p) = prio_of_id(d, *id) {
+            for c in calls {
+                fcalls.push((c.1, *id, p));
+            }
+        }
+    }
+    fcalls.sort();
+    for (i, (fseq_b, b, pb)) in fcalls.iter().enumerate() {
+        for (fseq_a, a, pa) in fcalls.iter().skip(i + 1) {
+            if pa > pb {
+                let acc_a = d.sent.get(a).and_then(|v| v.iter().find(|x| x.2)).map(|x| x.1).or_else(|| d.trysent.get(a).and_then(|v| v.iter().find(|x| x.2)).map(|x| x.1));
+                if let Some(acc) = acc_a {
+                    if acc < *fseq_b {
+                        stats.hit("probe:priority-order-judged");
+                        vs.push(Violation::new(
+                            "lower-priority-event-received-first",
+                            "",
+                            format!("event {b} (priority {pb}) was received at #{fseq_b} although event {a} (priority {pa}), accepted at #{acc}, was still queued (received at #{fseq_a})"),
+                        ));
+                    }
+                }
+            } else if pa < pb {
+                stats.hit("probe:priority-order-judged");
+            }
+        }
+    }
     // an urgent event is not filtered
     for (id, calls) in &d.filter {
         if prio_of_id(d, *id) == Some(3) && !calls.is_empty() {
@@ -1488,7 +1518,21 @@ pub fn gen_quit(rng: &mut Rng) -> E2Scn {
             ops,
             later,
             hold_clone: rng.chance(1, 3),
+            fixed_id: None,
         });
+    }
+    let mut quit_batch = quit_batch;
+    if rng.chance(1, 4) {
+        // a job under a fixed id is deleted (or just ends) and re-created under the same id in a later action
+        let first_ops = match rng.below(3) {
+            0 => vec![Op::Start, Op::Delete],
+            1 => vec![Op::Start, Op::DeleteNow],
+            _ => vec![Op::Delete],
+        };
+        let child = ChildSpec { on_signal: if rng.chance(1, 2) { SigReact::Exit(0) } else { SigReact::Ignore }, ..Default::default() };
+        s.jobs.push(JobPlan { at_batch: 0, grouped: false, session: false, children: vec![child.clone()], ops: first_ops, later: vec![], hold_clone: false, fixed_id: Some(0) });
+        s.jobs.push(JobPlan { at_batch: 1, grouped: rng.chance(1, 2), session: false, children: vec![child], ops: vec![Op::Start], later: vec![], hold_clone: rng.chance(2, 3), fixed_id: Some(0) });
+        quit_batch = quit_batch.max(2);
     }
     s.quit = Some(QuitPlan { at_batch: quit_batch, graceful });
     // events that produce batches 0..=quit_batch, spaced so that jobs are caught at different points
